@@ -1,0 +1,7 @@
+//go:build !verif
+
+package io
+
+// verifEvent is the call-tracing hook of the verification harness in /verif;
+// without the "verif" build tag it does nothing.
+func (c *StringScanner) verifEvent(op string) {}
